@@ -1558,7 +1558,10 @@ fn merge_secondary_parts<P: Platform>(
     for (id, info) in output_sections.ids_with_info() {
         if let SectionKind::Secondary(primary_id) = info.kind {
             let secondary_layout = take(section_layouts.get_mut(id));
-            section_layouts.get_mut(primary_id).merge(&secondary_layout);
+            let is_alloc = output_sections.section_flags(primary_id).is_alloc();
+            section_layouts
+                .get_mut(primary_id)
+                .merge(&secondary_layout, is_alloc);
         }
     }
 }
@@ -5329,11 +5332,26 @@ impl<'scope, 'data, P: Platform> FinaliseLayoutResources<'scope, 'data, P> {
 }
 
 impl OutputRecordLayout {
-    fn merge(&mut self, other: &OutputRecordLayout) {
+    /// Extends this record to also cover `other`, which is placed somewhere after us. Allocated
+    /// records share one address space, so there `other` might not start exactly where we end,
+    /// since it may need more alignment than we do.
+    fn merge(&mut self, other: &OutputRecordLayout, is_alloc: bool) {
         debug_assert!(other.mem_offset >= self.mem_offset);
         debug_assert!(other.file_offset >= self.file_offset);
-        self.mem_size += other.mem_size;
-        self.file_size += other.file_size;
+        if is_alloc && other.mem_size > 0 {
+            self.mem_size = self
+                .mem_size
+                .max(other.mem_offset + other.mem_size - self.mem_offset);
+        } else {
+            self.mem_size += other.mem_size;
+        }
+        if is_alloc && other.file_size > 0 {
+            self.file_size = self
+                .file_size
+                .max(other.file_offset + other.file_size - self.file_offset);
+        } else {
+            self.file_size += other.file_size;
+        }
         if other.mem_size > 0 {
             self.alignment = self.alignment.max(other.alignment);
         }
